@@ -78,6 +78,10 @@ def oracle(sc, res, rep, case):
                 regs.pop(info[-1], None)
             elif k == "connLostRun" and info[1] == "discovery":
                 killed["*"] = idx
+            elif k == "connLost":
+                # the loss itself withdraws everything learnt before it (the deferred discovery part has run by the next
+                # idle state; an offer that slips in between is withdrawn by that part, see connLostRun above)
+                killed["*"] = max(killed.get("*", -1), idx)
         elif it[0] == "out":
             _, t, text = it
             p = text.split(" ")
